@@ -174,6 +174,10 @@ func configFor(mode, tier string, r *core.Rng) genCfg {
 	if c.restartRate == 0 && mode != "crash" && r.Chance(0.5) {
 		c.restartRate = 0.06
 	}
+	// ... or die inside a Commit and replay the block after the restart
+	if c.crashRate == 0 && mode != "crash" && mode != "replica" && mode != "hostile" && r.Chance(0.4) {
+		c.crashRate = 0.04
+	}
 	// swarm: switch some things off entirely in a run
 	if r.Chance(0.3) {
 		c.evRate = 0
@@ -702,7 +706,9 @@ func (g *gen) genBlock(bi int) {
 		if r.Chance(g.cfg.restartRate) {
 			blk.Faults = append(blk.Faults, Fault{Replica: ri, Kind: "restart"})
 		}
-		if r.Chance(g.cfg.crashRate) {
+		if r.Chance(g.cfg.crashRate) && (bi > 0 || g.cfg.mode == "crash") {
+			// (not inside the very first Commit outside the C13 check: what the replay then runs on is the open
+			// finding first-commit-crash-mixture, which would be blamed on whatever property the run is about)
 			blk.Faults = append(blk.Faults, Fault{Replica: ri, Kind: "crash_commit", K: r.Intn(64), IOErr: r.Chance(0.35)})
 		}
 		if ri > 0 && g.prop == "C01" && r.Chance(0.08) {
